@@ -1695,6 +1695,29 @@ def c06_bridge(ctx):
             if bad is not None:
                 out.fail(key, '%s sends %s through %s, which reserves concurrent capacity on it: the fragment table of a vector converted from data is sized by that data, and the dependency\'s reservation fails for such tables (index out of bounds above 131068 previous elements) - the target and its contents are lost'
                          % (key_of(b), t_str(bad)[:100], strip_generics(res(t))), b.where(c['line']))
+    # (b) the reservation on a vector the *caller* supplied: the receiver is the `self` of a collect_into impl.  orx-split-vec 3.23
+    # looks its capacity table up by the capacity of the fragment vector, which `Vec::reserve` over-allocates: once a Doubling
+    # SplitVec has been through two growing reservations (or was created with a fragments capacity of 17..30) the lookup is out of
+    # bounds.  Reproduced with plain API use (DESIGN 7, D13); not repairable here without giving up collecting in place.
+    for b in F.fn_bodies():
+        if key_of(b) not in reservers or b.d.get('impl_trait') != COLLECT_INTO_CORE:
+            continue
+        r = ctx.run(b.name)
+        hit = None
+        for bb, c in r.call_sites():
+            if method(c['t']) == 'reserve_maximum_concurrent_capacity' and c['args']:
+                base = c['args'][0]
+                hops = 0
+                while base is not None and base[0] in ('mut', 'ref', 'field') and hops < 8:
+                    base = base[1]
+                    hops += 1
+                if base == P('self'):
+                    hit = c
+        if hit is not None:
+            n += 1
+            key = 'C06-BRIDGE/%s/reserve-on-caller-target' % key_of(b)
+            out.inst(key, False, 'reserve_maximum_concurrent_capacity(self, ..)')
+            out.fail(key, '%s calls reserve_maximum_concurrent_capacity on the caller\'s SplitVec: the dependency (orx-split-vec 3.23) indexes its 33-entry capacity table by the capacity of the fragment vector, which its own amortised growth pushes past 32 - e.g. two parallel collect_into calls of 300000 elements onto `SplitVec::new()` panic in the second call with "index out of bounds: the len is 33 but the index is 34" and the target is lost' % key_of(b), b.where(hit['line']))
     out.count('reserving_fns', len(reservers))
     out.floor('bridge_sites', n, 2 if not ctx.fixture else 0)
     return out
